@@ -11,7 +11,7 @@ CFG = {
                  "model = real scanners / real Draw + Spec.Wrap / Spec.WrapDraw oracles on the real output",
     "rule": "one case = one (scanner, text, width range 0..6 or w..w+1) for text.SoftwrapScanner (P), richtext.SoftwrapScanner (R), "
             "HardwrapScanner (H), Text.Draw/RichText.Draw soft wrap (DP/DR), RichText.Draw hard wrap (DH), Text.Draw hard wrap (DT, round 3), "
-            "the 65538-line row wrap-around witness (DW). R and H also run the aliasing oracle (input cells, spare capacity behind them, "
+            "the 65538-line row wrap-around witness (DW), both soft scanners on texts with one or two hard breaks of every UAX#14 mandatory class (MB, round 4). R and H also run the aliasing oracle (input cells, spare capacity behind them, "
             "every returned line unchanged after the iteration). Texts: all strings over {a,b,space,-,\\n,世,e+U+0301,U+2060,tab} "
             "up to length 5 (quick) / 6 (thorough) x widths 0..6, random strings of length 6-7 (quick) / 7-9 (thorough), random "
             "word-structured texts up to 2000 graphemes over a 30-grapheme alphabet x widths 1..200, one 65536-column word; Draw for "
@@ -31,6 +31,8 @@ CFG = {
         "Model.WrapHeap (heap-level transcription of richtext.SoftwrapScanner.Scan / HardwrapScanner.Scan over Go slices) is a hand transcription (no extractor): tied "
         "to richtext.go by the facts_* pins of the statements it rests on and to the value-level model by theorem (rich_scanner_on_the_heap, hard_scan_refines); "
         "Go's append growth policy is a parameter (any function)",
+        "Model.WrapObj (the plain scanner as an object, round 4): []byte values are value-level lists - Text() copies, []byte{} allocates, s.rest = rest re-slices the private copy made by "
+        "NewSoftwrapScanner, so no caller-visible aliasing exists (read from the source, not extracted)",
     ],
     "assumptions": [
         "OracleOK / OracleTermW / PosIndep for uniseg.FirstLineSegment (proved for the transcribed richtext.firstLineSegment, checked at run time for text)",
@@ -61,11 +63,22 @@ CFG = {
                   "in /repo: F44, F45 (round 1), F116 (stale uniseg state after a long-word split: terminator inside a line, needless split), "
                   "F216 (row counter wraps at Max.Height 65535), F416/F516 (CRLF), and in round 3 F316 (hard-wrap Draw put an ellipsis on a line that "
                   "fits exactly; fixed in both packages, Witness.F316 shows the pre-fix conjuncts fail) and F616 (Text.Draw without soft wrap used bufio.Scanner: a line over "
-                  "64 KiB silently ended the drawing, a lone CR did not end the line; found by the DT stream).",
+                  "64 KiB silently ended the drawing, a lone CR did not end the line; found by the DT stream). "
+                  "ROUND 4: Props.C16Obj over Model.WrapObj (text.SoftwrapScanner as an OBJECT: fields stored where text.go stores them, the placement of s.state = state read from the "
+                  "regenerated facts) - plain_scanner_object_refines / src_scanner_is_value_model (one Scan and the whole iteration of the object = Model.Wrap.scan / plainLines, every oracle), "
+                  "scan_state_is_function_of_consumed_text (at every Scan boundary (rest, state) lies on the segmenter's own path chain o k base ini from a point where the state was -1: "
+                  "independent of the width and of which Scan call deferred a segment; no oracle hypothesis), deferred_segment_leaves_fields; Witness.C16StateEarly (the store before the early "
+                  "return leaves the path and changes the lines). Props.C16DrawAll: text_draw_exactly_the_lines (scanner result explicit, every Max.Width), rich_draw_wide_grapheme_exception / "
+                  "text_draw_single_grapheme_row (the single grapheme wider than Max.Width - the exception of the property text - is drawn at column 0 of its row), wide_grapheme_at_width_one. "
+                  "The soft-wrap Draw loops are now tied by execution: Props.C14Body runs the regenerated bodies of both drawSoftwrap / findContainerSize and proves them equal to Layout.drawText. "
+                  "FINDING F716 (recorded, MB stream): richtext.SoftwrapScanner does not end the line at U+2028 / U+2029 / U+0085 / VT / FF (uniseg.HasTrailingLineBreak is false there while "
+                  "FirstLineSegment must-breaks; text.SoftwrapScanner ends the line); the hard modes not breaking there is not a C16 violation (they draw the lines their own splitter emits).",
     "level_note": "Validated by correspondence only: that the real uniseg meets OracleOK / OracleTermW / PosIndep on the generated texts (asserted per "
                   "query); that Model.WrapHeap transcribes richtext.go (it is proved equal to Model.Wrap, which the correspondence run ties to the code). Modelled, not verified: tab inside an unbreakable word "
                   "(long-word split rewrites the tab as 8 spaces), hard-wrap lines of 2^16 columns or more (uint16 column counter), texts where uniseg is not "
                   "position independent (LB14 / LB25 contexts; discarded and counted). The DW witness compares the real surface with the proved "
-                  "row specification instead of executing the List-based model on 65535 rows.",
+                  "row specification instead of executing the List-based model on 65535 rows. Round 4: the scanner theorems are relative to the term flag = the library's "
+                  "HasTrailingLineBreak; that this flag misses the BK / NL classes is checked by the MB stream against uniseg.FirstLineSegment's must-break (F716), not by a theorem. "
+                  "Model.WrapObj is a hand transcription of text.go's Scan; only the placement of s.state = state is read from the source; it is proved equal to Model.Wrap and run by the driver.",
     "timeout": 1500,
 }
